@@ -8,8 +8,9 @@
 EXTENDS Batch, Json, IOUtils, TLCExt
 
 Traces == JsonDeserialize(IOEnv.TRACE_FILE).traces
-VARIABLES tid, l, dev
-tvars == <<vars, tid, l, dev>>
+VARIABLES tid, l, dev,
+          twin           \* the declaration of a second ParameterList built from the same dictionary at construction time
+tvars == <<vars, tid, l, dev, twin>>
 Ev == Traces[tid][l]
 
 Others == <<next, busy, results, error, failedAny, mode, score>>
@@ -18,8 +19,8 @@ Pairs(c)  == [i \in 1..Len(c) |-> <<c[i][1], c[i][2]>>]
 Combos(r) == [k \in 1..Len(r) |-> Pairs(r[k])]
 
 TrInit == /\ Ev.op = "pl_init" /\ l = 1
-          /\ \/ Ev.out = "ok" /\ ~Ev.badkey /\ decl' = DeclOf(Ev.decl)
-             \/ Ev.out = "AttributeError" /\ Ev.badkey /\ UNCHANGED decl
+          /\ \/ Ev.out = "ok" /\ ~Ev.badkey /\ decl' = DeclOf(Ev.decl) /\ twin' = DeclOf(Ev.decl)
+             \/ Ev.out = "AttributeError" /\ Ev.badkey /\ UNCHANGED <<decl, twin>>
 TrDeclare == /\ Ev.op = "declare"
              /\ \/ Ev.out = "ok" /\ Ev.namekind = "str" /\ Declare(Ev.name, Ev.shape)
                 \/ Ev.out = "KeyError" /\ Ev.namekind = "str" /\ Declared(Ev.name) /\ DeclareRejected(Ev.name)
@@ -30,6 +31,7 @@ TrRemove == /\ Ev.op = "remove_param"
 TrBuild == /\ Ev.op = "build" /\ Ev.out = "ok" /\ Build
            /\ Combos(Ev.res) = Product(decl)
            /\ Combos(Ev.res2) = Product(decl)       \* built again after the caller modified the first result
+           /\ Combos(Ev.twin) = Product(twin)       \* the other list sharing the constructor dictionary is unaffected
 
 \* ---- batch_run on the fixture model -------------------------------------------------------------------
 Grid(o)      == [i \in 1..Len(o) |-> [name |-> o[i][1], vals |-> o[i][2]]]
@@ -70,10 +72,11 @@ TrGridSearch ==
           /\ Ev.best = BestIdx(Ev.mode, sc)
 
 TraceInit == /\ decl = <<>> /\ next = 1 /\ busy = << >> /\ results = <<>> /\ error = FALSE /\ failedAny = FALSE
-             /\ mode = "MIN" /\ score = << >> /\ tid \in 1..Len(Traces) /\ l = 1 /\ dev = {}
+             /\ mode = "MIN" /\ score = << >> /\ tid \in 1..Len(Traces) /\ l = 1 /\ dev = {} /\ twin = <<>>
 TraceNext == /\ l <= Len(Traces[tid]) /\ l' = l + 1 /\ UNCHANGED <<tid, dev>>
-             /\ \/ (TrInit \/ TrDeclare \/ TrRemove \/ TrBuild) /\ UNCHANGED Others
-                \/ TrBatchRun \/ TrGridSearch
+             /\ \/ TrInit /\ UNCHANGED Others
+                \/ (TrDeclare \/ TrRemove \/ TrBuild) /\ UNCHANGED Others /\ UNCHANGED twin
+                \/ (TrBatchRun \/ TrGridSearch) /\ UNCHANGED twin
 TraceSpec == TraceInit /\ [][TraceNext]_tvars
 Accepted == (l = Len(Traces[tid]) + 1) => PrintT(<<"ACCEPT", tid, dev>>)
 Progress == PrintT(<<"AT", tid, l, ToString(decl)>>)
